@@ -78,6 +78,19 @@ def main(argv=None):
     with open(os.path.join(d, 'case.json')) as f:
         case = json.load(f)
     kind = case['kind']
+    if kind == 'unit':
+        # a unit-level counterexample: python code that fails (AssertionError / exception) on the real functions
+        import numpy  # noqa
+        try:
+            exec(compile(case['python'], '<replay>', 'exec'), {'__name__': '__replay__'})
+        except AssertionError as e:
+            print('REPRODUCED: %s' % (e or case.get('text', 'assertion failed')))
+            return 1
+        except Exception as e:
+            print('REPRODUCED: %s: %s' % (type(e).__name__, e))
+            return 1
+        print('not reproduced: the snippet ran without failing')
+        return 0
     text, exc, out = convert(case['deck'], case.get('lattice', ()), case.get('flags'))
     if kind == 'raises':
         if exc is None:
